@@ -24,6 +24,7 @@ import (
 	"math/rand/v2"
 	"os"
 	"path/filepath"
+	"runtime/debug"
 	"sort"
 	"strings"
 	"sync"
@@ -36,6 +37,7 @@ import (
 	pb "github.com/buchgr/bazel-remote/v2/genproto/build/bazel/remote/execution/v2"
 	"github.com/klauspost/compress/zstd"
 	"github.com/valyala/gozstd"
+	bspb "google.golang.org/genproto/googleapis/bytestream"
 	"google.golang.org/protobuf/proto"
 )
 
@@ -50,6 +52,10 @@ var cfgs = []cfg{{"zstd", "go"}, {"zstd", "cgo"}, {"uncompressed", "go"}, {"unco
 
 const bigCache = int64(16) << 30 // never evict
 
+// dirs recycles cache-directory skeletons (768 sub-directories each) between
+// cases; created in run, removed at its end.
+var dirs *lib.DirPool
+
 // settleMax bounds waits for quiescence (expiry is never a verdict).
 const settleMax = 20 * time.Second
 
@@ -58,6 +64,12 @@ func run(r *lib.Run) {
 	r.Assume("'any 2.x release' is represented by the published format definition (independent codec in lib/casfmt.go) plus golden files written by the unchanged build; no historical binaries are available offline")
 	r.Assume("naming injectivity is judged on (key space, hash, prefix, stored format): AC/RAW names do not depend on the storage mode because their stored bytes do not; the gRPC backend has no prefix and maps RAW onto AC (documented in grpcproxy)")
 	r.Assume("azblobproxy applies a non-empty prefix twice (<prefix>/<prefix>/...); that is the behaviour of the unchanged build and is what deployed containers hold, so it is what is pinned")
+
+	dirs = lib.NewDirPool("c20")
+	defer dirs.Close()
+	// Many multi-megabyte buffers are in flight; a soft limit keeps the
+	// collector from letting the heap double on top of them.
+	defer debug.SetMemoryLimit(debug.SetMemoryLimit(2500 << 20))
 
 	var wg sync.WaitGroup
 	sections := []func(*lib.Run){runGoldens, runDir1, runDir2, runNaming}
@@ -92,6 +104,54 @@ func run(r *lib.Run) {
 
 // ---------------------------------------------------------------------------
 // Small helpers shared by the sections.
+
+// openMax bounds the start-up of a cache on an existing directory. (The
+// start-up scan of the code under test can block forever on some of its error
+// paths; that is a matter for C09, here an expiry is inconclusive.)
+const openMax = 120 * time.Second
+
+// startBounded is lib.StartServer with a watchdog.
+func startBounded(o lib.ServerOpts) (srv *lib.Server, err error, timedOut bool) {
+	type res struct {
+		s *lib.Server
+		e error
+	}
+	ch := make(chan res, 1)
+	go func() {
+		s, e := lib.StartServer(o)
+		ch <- res{s, e}
+	}()
+	select {
+	case x := <-ch:
+		return x.s, x.e, false
+	case <-time.After(openMax):
+		go func() { // do not leak a server that eventually comes up
+			if x := <-ch; x.s != nil {
+				x.s.Close()
+			}
+		}()
+		return nil, nil, true
+	}
+}
+
+// openBounded is lib.NewCache with a watchdog.
+func openBounded(o lib.ServerOpts) (c disk.Cache, err error, timedOut bool) {
+	type res struct {
+		c disk.Cache
+		e error
+	}
+	ch := make(chan res, 1)
+	go func() {
+		c, _, e := lib.NewCache(o)
+		ch <- res{c, e}
+	}()
+	select {
+	case x := <-ch:
+		return x.c, x.e, false
+	case <-time.After(openMax):
+		return nil, nil, true
+	}
+}
 
 // safely runs f and converts a panic of the code under test into a value
 // (direct disk-API calls run on the caller's goroutine).
@@ -220,6 +280,25 @@ func decodeBoth(b []byte, hint int) ([]byte, error) {
 	return a, nil
 }
 
+// bsRead is ByteStream.Read into a buffer sized for the expected answer.
+func bsRead(ctx context.Context, srv *lib.Server, resource string, offset, limit int64, hint int) ([]byte, error) {
+	st, err := srv.BS.Read(ctx, &bspb.ReadRequest{ResourceName: resource, ReadOffset: offset, ReadLimit: limit})
+	if err != nil {
+		return nil, err
+	}
+	buf := make([]byte, 0, hint+1024)
+	for {
+		m, err := st.Recv()
+		if err == io.EOF {
+			return buf, nil
+		}
+		if err != nil {
+			return buf, err
+		}
+		buf = append(buf, m.Data...)
+	}
+}
+
 // firstDiff describes where two byte strings start to differ.
 func firstDiff(got, want []byte) string {
 	n := min(len(got), len(want))
@@ -280,7 +359,7 @@ type encoder struct {
 var kpEncoders = func() map[int]*zstd.Encoder {
 	m := map[int]*zstd.Encoder{}
 	for lv := 1; lv <= 4; lv++ {
-		e, err := zstd.NewWriter(nil, zstd.WithEncoderLevel(zstd.EncoderLevel(lv)), zstd.WithEncoderConcurrency(8))
+		e, err := zstd.NewWriter(nil, zstd.WithEncoderLevel(zstd.EncoderLevel(lv)), zstd.WithEncoderConcurrency(3))
 		if err != nil {
 			panic(err)
 		}
